@@ -9,7 +9,9 @@ def register(prop, J):
               "any mix of REST methods, finders with params / paging / metadata, actions); each manifest is generated in 3 fresh "
               "processes and compiled against the tree's runtime; non-trivial = >= 2 namespaces, a resource or a default; distinct by manifest",
          jobs=[
-             J("gen-v2", "v2", "genprops", "^TestC12", checks=(120, 6000), shards=(8, 16), prepare="prepare_genprops",
+             J("gen-v2", "v2", "genprops", "^TestC12(Generate|CheckedIn|KnownFindings)", checks=(120, 6000), shards=(8, 16), prepare="prepare_genprops",
+               extra_pkgs=["gendrv"], timeout=(1500, 3300)),
+             J("stress-v2", "v2", "genprops", "^TestC12Stress", checks=(60, 3000), shards=(8, 16), prepare="prepare_genprops",
                extra_pkgs=["gendrv"], timeout=(1500, 3300)),
          ],
          level_text="generated schema sets through the working tree's generator: exit status (no panic), byte-identical output of three "
